@@ -700,7 +700,7 @@ func genCase(g *hc.Gen, nrows, akind int) caseSpec {
 		c.udf2 = g.Intn(3) == 0
 	}
 	if strings.HasPrefix(c.fn, "agg:") {
-		c.distinct = g.Intn(6) == 0
+		c.distinct = g.Intn(6) == 0 && akind != aMixed // DISTINCT over NULL and UNKNOWN depends on row order (C04's domain)
 	}
 	return c
 }
@@ -720,7 +720,6 @@ func runCase(g *hc.Gen, o *hc.Out, pr *hc.Proc, rows [][]value.Primary, c caseSp
 		}
 		return m
 	}
-	v, err := safeQuery(pr, sql)
 	o.Count("fn:" + c.fn)
 	o.Count("frame:" + c.w.class())
 	o.Count(fmt.Sprintf("pcols:%d", len(c.pcols)))
@@ -772,17 +771,78 @@ func runCase(g *hc.Gen, o *hc.Out, pr *hc.Proc, rows [][]value.Primary, c caseSp
 	}
 	o.NonTrivial(fmt.Sprintf("%s|%s|ign=%v|p%d|o%d|u=%v|parts<=%d|rows<=%d|d=%v", c.fn, c.w.class(), c.ign, len(c.pcols), len(c.items), c.uniqueOrder(), sizeBand(len(parts)), sizeBand(nrows), c.distinct))
 
+	// ----- the operation line for the model of the current code -----
+	isModelFn := !strings.HasPrefix(c.fn, "agg:")
+	op := ""
+	if isModelFn {
+		a1, a2 := "-", "-"
+		if c.a1 != nil {
+			a1 = strconv.Itoa(*c.a1)
+		}
+		if c.a2 != nil {
+			a2 = hc.EncVal(c.a2)
+		}
+		ign := "0"
+		if c.ign {
+			ign = "1"
+		}
+		var sb strings.Builder
+		fmt.Fprintf(&sb, "c17.%s %s %s %s %s %d", c.fn, a1, a2, ign, c.w.tok(), len(c.items))
+		for _, id := range order {
+			fmt.Fprintf(&sb, " %d %d", id, keyOf[id])
+			for _, it := range c.items {
+				if it.col < 0 {
+					sb.WriteString(" " + cellTok(value.NewInteger(int64(id))))
+				} else {
+					sb.WriteString(" " + cellTok(rows[id][it.col]))
+				}
+			}
+			sb.WriteString(" " + hc.EncVal(rows[id][cX]))
+		}
+		op = sb.String()
+	}
+
+	// ----- run the query -----
+	// An inverted frame (High < Low - 1) makes windowValues panic; with several worker goroutines a second
+	// panic is not recovered by Analyze (`if !gm.HasError() { recover() }`) and would take the whole process
+	// down, so such queries run on one goroutine.
+	aggBranch := c.fn == "cells" || c.fn == "count" || c.fn == "count_star" || strings.HasPrefix(c.fn, "agg:")
+	inverted := false
+	if aggBranch {
+		for _, p := range parts {
+			for k := range p {
+				if lo, hi := c.w.frame(k, len(p)); hi-lo+1 < 0 {
+					inverted = true
+				}
+			}
+		}
+	}
+	if inverted {
+		pr.SetCPU(1)
+		o.Count("inverted_frame_for_aggregate")
+	}
+	v, err := safeQuery(pr, sql)
+	if inverted {
+		pr.SetCPU(cpu)
+	}
+
 	// ----- errors -----
 	expectErr := (c.fn == "ntile" || c.fn == "nth_value") && c.a1 != nil && *c.a1 < 1 && nrows > 0
 	if err != nil {
 		switch {
+		case strings.Contains(err.Error(), "makeslice: cap out of range"):
+			o.Law("analytic:inverted_frame_fatal", replay(map[string]interface{}{"error": firstLine(err.Error()), "frame": c.w.tok(), "inverted_frame_expected": inverted}))
+			if isModelFn {
+				o.Case(op, "FATAL")
+			}
+			return
 		case c.fn == "count_star" && strings.Contains(err.Error(), "only available in select clause"):
 			o.Law("analytic:count_star_over_rejected", replay(map[string]interface{}{"error": err.Error()}))
 			return
 		case expectErr && hc.ErrCode(err) > 0:
 			// falls through to the model comparison with answer E
 		default:
-			o.Law(c.lawName("error"), replay(map[string]interface{}{"error": err.Error()}))
+			o.Law(c.lawName("error"), replay(map[string]interface{}{"error": firstLine(err.Error())}))
 			return
 		}
 	} else if expectErr {
@@ -819,31 +879,7 @@ func runCase(g *hc.Gen, o *hc.Out, pr *hc.Proc, rows [][]value.Primary, c caseSp
 	}
 
 	// ----- (a) the model of the current code -----
-	if !strings.HasPrefix(c.fn, "agg:") {
-		a1, a2 := "-", "-"
-		if c.a1 != nil {
-			a1 = strconv.Itoa(*c.a1)
-		}
-		if c.a2 != nil {
-			a2 = hc.EncVal(c.a2)
-		}
-		ign := "0"
-		if c.ign {
-			ign = "1"
-		}
-		var sb strings.Builder
-		fmt.Fprintf(&sb, "c17.%s %s %s %s %s %d", c.fn, a1, a2, ign, c.w.tok(), len(c.items))
-		for _, id := range order {
-			fmt.Fprintf(&sb, " %d %d", id, keyOf[id])
-			for _, it := range c.items {
-				if it.col < 0 {
-					sb.WriteString(" " + cellTok(value.NewInteger(int64(id))))
-				} else {
-					sb.WriteString(" " + cellTok(rows[id][it.col]))
-				}
-			}
-			sb.WriteString(" " + hc.EncVal(rows[id][cX]))
-		}
+	if isModelFn {
 		impl := "E"
 		if err == nil {
 			toks := make([]string, nrows)
@@ -879,10 +915,6 @@ func runCase(g *hc.Gen, o *hc.Out, pr *hc.Proc, rows [][]value.Primary, c caseSp
 			if nrows > 0 {
 				impl = strings.Join(toks, ",")
 			}
-		}
-		op := sb.String()
-		if c.fn == "ntile" || c.fn == "nth_value" {
-			// keep the wire format: the ORDER BY items are part of the rows
 		}
 		o.Case(op, impl)
 	}
@@ -1124,6 +1156,13 @@ func runCase(g *hc.Gen, o *hc.Out, pr *hc.Proc, rows [][]value.Primary, c caseSp
 			}
 		}
 	}
+}
+
+func firstLine(s string) string {
+	if i := strings.Index(s, "\n"); i >= 0 {
+		return s[:i]
+	}
+	return s
 }
 
 func intCell(p value.Primary) int {
